@@ -226,8 +226,11 @@ def is_valid(root):
         return False
 
 
-def check(sp, fault):
-    case = {"tree": sp, "fault": fault}
+def check(sp, fault, shadow=False):
+    """shadow=True: a second live tree with the same node ids but other content exists (the same JSON loaded twice and
+    edited); expansion of the first tree must be computed from the first tree.  Registry clauses are skipped then
+    (ids are deliberately reused, which C14 excludes)."""
+    case = {"tree": sp, "fault": fault, "shadow": shadow}
     nrefs = sum(1 for _, s in treegen.spec_nodes(sp) if s["n"] == REF)
     Node.store.clear()
     if fault is None:
@@ -235,6 +238,15 @@ def check(sp, fault):
         Node.store.clear()
     root = treegen.build(sp)
     all_before = treegen.nodes(root)
+    if shadow:
+        from metapype.model import metapype_io
+        other = metapype_io.from_json(metapype_io.to_json(root))
+        for n in treegen.nodes(other):
+            if n.content is not None:
+                n.content = "shadow " + n.content
+            if n.name not in ("references",) and n.children and n.children[-1].name != "references":
+                n.remove_child(n.children[-1])
+        other_before = snapshot.snap(other, ids=True)
     was_valid = is_valid(root)
     before = snapshot.deep(root)
     store_before = snapshot.store()
@@ -257,7 +269,7 @@ def check(sp, fault):
     if fault is not None:
         if raised is None:
             raise Violation("fault-not-reported:" + fault["kind"], "expand returned normally", case)
-        d = snapshot.diff(before, snapshot.deep(root)) or snapshot.store_diff(store_before, snapshot.store())
+        d = snapshot.diff(before, snapshot.deep(root)) or (None if shadow else snapshot.store_diff(store_before, snapshot.store()))
         if d:
             raise Violation("not-atomic:" + fault["kind"], f"ValueError raised but the tree / registry changed: {d}", case)
         later = fault["kind"] == "dangling" and fault["position"] >= 1
@@ -277,14 +289,16 @@ def check(sp, fault):
     ids = [n.id for n in after]
     if len(set(ids)) != len(ids):
         raise Violation("duplicate-node-ids", "two nodes share an id after expansion", case)
+    if shadow and snapshot.snap(other, ids=True) != other_before:
+        raise Violation("other-tree-modified", "expanding one tree changed another live tree that carries the same node ids", case)
     for n in after:
-        if Node.get_node_instance(n.id) is not n:
+        if not shadow and Node.get_node_instance(n.id) is not n:
             raise Violation("node-unregistered", f"{n.name} is in the tree but not (or differently) registered", case)
         for c in n.children:
             if c.parent is not n:
                 raise Violation("parent-link", f"{c.name} under {n.name}", case)
     for r in ref_nodes:
-        if r.id in Node.store:
+        if not shadow and r.id in Node.store:
             raise Violation("references-node-still-registered", "a discarded references node is still registered", case)
     old_ids = {x[1] for x in before}
     new_nodes = [n for n in after if n.id not in old_ids]
@@ -316,7 +330,10 @@ def hyp_shard(ctx, shard):
 
     def body(c):
         sp, fault = c
-        nrefs, later, further = check(sp, fault)
+        shadow = treegen.spec_size(sp) % 4 == 0
+        if shadow:
+            ctx.count("second-live-tree-with-same-node-ids")
+        nrefs, later, further = check(sp, fault, shadow)
         nontriv = (nrefs >= 2 and further) or later
         ctx.note(key=c, nontrivial=nontriv,
                  cls=["refs:" + ("0" if nrefs == 0 else "1" if nrefs == 1 else "2+"),
@@ -335,7 +352,7 @@ def run(ctx):
 
 def replay(case):
     try:
-        check(case["tree"], case.get("fault"))
+        check(case["tree"], case.get("fault"), case.get("shadow", False))
     except Violation as v:
         return f"{v.bucket}: {v.message}"
     return None
